@@ -226,6 +226,44 @@ theorem head_has_no_body (cs : Nat) (cur : Str) (mt : Nat) (h : CondHdrs) (rng :
   simp only [fileResponse]
   cases makeResponse cur mt h <;> simp [sendBytes_head]
 
+/-- **Entity-tag comparison, for every list** (RFC 9110 §8.8.3.2): `_etag_match` succeeds iff
+the header is the single `*`, or some listed tag carries the current opaque value and — for
+the strong comparison of If-Match — is itself not weak.  In particular a list that mixes other
+strong tags with the current tag in its weak form `W/"…"` does **not** match strongly, in
+whatever order, while it does match weakly (If-None-Match). -/
+theorem etagMatch_iff (cur : Str) (tags : List ETag) (weak : Bool) :
+    etagMatch cur tags weak = true ↔
+      (∃ t, tags = [t] ∧ t.value = [42]) ∨ ∃ t ∈ tags, (weak = true ∨ t.weak = false) ∧ t.value = cur := by
+  unfold etagMatch
+  constructor
+  · intro h
+    rcases Bool.or_eq_true_iff.mp h with h1 | h2
+    · left
+      split at h1
+      · next t => exact ⟨t, rfl, by simpa using h1⟩
+      · cases h1
+    · right
+      obtain ⟨t, ht, hp⟩ := List.any_eq_true.mp h2
+      simp at hp
+      refine ⟨t, ht, ?_, hp.2⟩
+      cases weak <;> simp_all
+  · rintro (⟨t, rfl, hv⟩ | ⟨t, ht, hw, hv⟩)
+    · simp [hv]
+    · apply Bool.or_eq_true_iff.mpr
+      right
+      apply List.any_eq_true.mpr
+      refine ⟨t, ht, ?_⟩
+      rcases hw with hw | hw <;> simp [hw, hv]
+
+/-- a strong tag for something else plus the current tag in weak form: If-Match fails (412),
+If-None-Match hits (304) — both orders -/
+theorem mixed_list_strong_fails (cur other : Str) (h : other ≠ cur) :
+    etagMatch cur [⟨false, other⟩, ⟨true, cur⟩] false = false ∧
+    etagMatch cur [⟨true, cur⟩, ⟨false, other⟩] false = false ∧
+    etagMatch cur [⟨false, other⟩, ⟨true, cur⟩] true = true ∧
+    etagMatch cur [⟨true, cur⟩, ⟨false, other⟩] true = true := by
+  simp [etagMatch, h]
+
 /-- **Conditional requests follow RFC 9110 §13.2.2.**  The cascade in `_make_response` is the
 specified precedence: If-Match (strong comparison) first; If-Unmodified-Since only without
 If-Match; then If-None-Match (weak comparison); If-Modified-Since only without If-None-Match. -/
